@@ -239,6 +239,13 @@ def _is_boolish(v):
     return isinstance(v, (bool, SB))
 
 
+SYMBOLIC_GATHER = True
+
+
+def _ite_able(x):
+    return isinstance(x, (int, float, S, SB, XR)) or hasattr(x, '__ite__')
+
+
 class A:
     """ndarray look-alike: flat python list + shape"""
     __array_priority__ = 2000
@@ -498,7 +505,81 @@ class A:
                     offs.append(po + adv_off[j] + builtins.sum(qc))
         return offs, tuple(psh) + tuple(F) + tuple(qsh), True
 
+    def _sym_gather(self, key):
+        """a[seq] / a[:, seq] with symbolic integer indices: ITE-select along the
+        axis instead of forking over index values (sound, no concretisation).
+        Returns None when the pattern does not apply."""
+        if not SYMBOLIC_GATHER:
+            return None
+        if isinstance(key, tuple):
+            if len(key) == 2 and isinstance(key[0], slice) and key[0] == slice(None) and self.ndim == 2:
+                axis, idx = 1, key[1]
+            else:
+                return None
+        else:
+            axis, idx = 0, key
+        if isinstance(idx, S):
+            scalar = True
+            il = [idx]
+        elif isinstance(idx, (A, list)):
+            scalar = False
+            ia = idx if isinstance(idx, A) else asarray(idx)
+            if ia.ndim != 1:
+                return None
+            il = list(ia.d)
+        else:
+            return None
+        if not builtins.any(isinstance(v, S) for v in il):
+            return None
+        if builtins.any(isinstance(v, (bool, SB)) for v in il):
+            return None
+        d = self.d
+        if not builtins.all(_ite_able(x) for x in d):
+            return None
+        n = self.shape[axis]
+        if n == 0:
+            return None
+        st = _strides(self.shape)
+        other = [i for i in range(self.ndim) if i != axis]
+        osh = [self.shape[i] for i in other]
+        cols = []
+        for v in il:
+            if isinstance(v, S):
+                if not bool((v >= 0) & (v < n)):
+                    if bool(v < 0) and bool(v >= -n):
+                        v = v + n
+                    else:
+                        raise IndexError('index out of bounds for axis %d with size %d' % (axis, n))
+            else:
+                w = v + n if v < 0 else v
+                if not 0 <= w < n:
+                    raise IndexError('index %d is out of bounds for axis %d with size %d' % (v, axis, n))
+                v = w
+            col = []
+            for comb in itertools.product(*[range(k) for k in osh]):
+                base = builtins.sum(c * st[a] for c, a in zip(comb, other))
+                if isinstance(v, S):
+                    e = d[base + (n - 1) * st[axis]]
+                    for k in range(n - 2, -1, -1):
+                        e = ite(v == k, d[base + k * st[axis]], e)
+                else:
+                    e = d[base + v * st[axis]]
+                col.append(e)
+            cols.append(col)
+        if scalar:
+            if not osh:
+                return cols[0][0]
+            return A(cols[0], osh)
+        if axis == 0:
+            return A([x for col in cols for x in col], [len(il)] + osh)
+        # axis == 1 of a 2-D array: result (rows, len(il))
+        rows = self.shape[0]
+        return A([cols[j][r] for r in range(rows) for j in range(len(il))], (rows, len(il)))
+
     def __getitem__(self, key):
+        g = self._sym_gather(key)
+        if g is not None:
+            return g
         offs, shape, adv = self._resolve(key)
         d = self.d
         if shape == () and not adv:
@@ -1051,6 +1132,8 @@ def _exp(x):
         return x.__exp__()
     if isinstance(x, (int, float)):
         return math.exp(x) if x != -INF else 0.0
+    if isinstance(x, S):
+        return core.uexp(x)
     raise NotImplementedError('exp of symbolic %r (use the LogP domain)' % type(x))
 
 
